@@ -1,6 +1,8 @@
 package main
 
 import (
+	"context"
+	"reflect"
 	"bytes"
 	"encoding/json"
 	"fmt"
@@ -213,3 +215,37 @@ func vhFar() time.Time { return time.Now().Add(10 * 365 * 24 * time.Hour) }
 
 // vhYield is a suspension point inside harness-provided callbacks.
 func vhYield(p string) { vhook.Yield(p) }
+
+// callShutdown calls cmd/helios's shutdownGracefully through reflection, so that the harness still builds when a
+// variant of the code gives that function further parameters. Arguments are chosen by type: the server, the balancer,
+// the timeout, and - if asked for - a context that expires with the timeout (counted from now, i.e. from the
+// "signal"), a signal channel nobody writes to, or zero values for anything else.
+func callShutdown(srv *http.Server, lb *loadbalancer.LoadBalancer, timeout time.Duration) {
+	fn := reflect.ValueOf(shutdownGracefully)
+	ft := fn.Type()
+	args := make([]reflect.Value, ft.NumIn())
+	var cancels []context.CancelFunc
+	for i := range args {
+		pt := ft.In(i)
+		switch {
+		case pt == reflect.TypeOf(srv):
+			args[i] = reflect.ValueOf(srv)
+		case pt == reflect.TypeOf(lb):
+			args[i] = reflect.ValueOf(lb)
+		case pt == reflect.TypeOf(timeout):
+			args[i] = reflect.ValueOf(timeout)
+		case pt == reflect.TypeOf((*context.Context)(nil)).Elem():
+			ctx, cancel := context.WithTimeout(context.Background(), timeout)
+			cancels = append(cancels, cancel)
+			args[i] = reflect.ValueOf(ctx)
+		case pt.Kind() == reflect.Chan:
+			args[i] = reflect.MakeChan(reflect.ChanOf(reflect.BothDir, pt.Elem()), 1).Convert(pt)
+		default:
+			args[i] = reflect.Zero(pt)
+		}
+	}
+	fn.Call(args)
+	for _, c := range cancels {
+		c()
+	}
+}
